@@ -6,6 +6,7 @@ import (
 	"container/list"
 	"fmt"
 	"reflect"
+	"sort"
 	"unsafe"
 
 	"github.com/oasisprotocol/curve25519-voi/curve"
@@ -140,5 +141,6 @@ func VerifLRUState(c Cache) (order []curve.CompressedEdwardsY, storeLen, capacit
 			problems = append(problems, fmt.Sprintf("index key %x maps to expansion of %x", k[:4], ck[:4]))
 		}
 	}
+	sort.Strings(problems) // the index is a map: keep the report deterministic
 	return
 }
